@@ -744,6 +744,10 @@ package middleware
 //@ ensures [C01:entry] ret(HF,0,1) ==> unboxptr(arg(NR,0,1), "*routeEntry").Handler == ret(HF,0,0) && unboxptr(arg(NR,0,1), "*routeEntry").PathPattern == path && unboxptr(arg(NR,0,1), "*routeEntry").Operation == operation
 //@ ensures [C19:maps] ret(HF,0,1) ==> calls(CF) == 1 && calls(PF) == 1 && calls(NO) == 2 && arg(CF,0,0) == ret(NO,0,0) && arg(PF,0,0) == ret(NO,1,0) && unboxptr(arg(NR,0,1), "*routeEntry").Consumers == ret(CF,0,0) && unboxptr(arg(NR,0,1), "*routeEntry").Producers == ret(PF,0,0) && arg(NO,0,0) == unboxptr(arg(NR,0,1), "*routeEntry").Consumes && arg(NO,1,0) == unboxptr(arg(NR,0,1), "*routeEntry").Produces
 //@ ensures [C02:auth] ret(HF,0,1) ==> calls(BA) == 1 && arg(BA,0,1) == operation && unboxptr(arg(NR,0,1), "*routeEntry").Authenticators == ret(BA,0,0) && calls(AZ) == 1 && unboxptr(arg(NR,0,1), "*routeEntry").Authorizer == ret(AZ,0,0)
+//@ watch AC = call (*github.com/go-openapi/analysis.Spec).ConsumesFor
+//@ ensures [C06:defaultadded] ret(HF,0,1) && ret(DC,0,0) != "" && !ret(CI,0,0) ==> len(arg(NO,0,0)) == len(ret(AC,0,0)) + 1
+// (that the added element still is the default when the list is normalised is not provable here: outside code runs in between and the model lets it write the analyzer's list)
+//@ ensures [C06:defaultpresent] ret(HF,0,1) && (ret(DC,0,0) == "" || ret(CI,0,0)) ==> arg(NO,0,0) == ret(AC,0,0)
 //@ ensures [C06:defaultconsumes] ret(HF,0,1) ==> calls(DC) == 1 && calls(DP) == 1 && (ret(DC,0,0) != "" ==> calls(CI) >= 1 && arg(CI,0,1) == ret(DC,0,0))
 
 // The request binder holds one parameter binder per declared parameter, each with its own copy of the
